@@ -1,3 +1,983 @@
 package main
 
-func runC18(cfg *RunCfg, rep *Reporter, cov *Cov, ev *Evidence) {}
+import (
+	"context"
+	"fmt"
+	"os"
+	"path/filepath"
+	"strings"
+	"time"
+
+	"github.com/klev-dev/klevdb"
+
+	"verifharness/ref"
+)
+
+// C18: blocking consume. Controlled placements inside the notifier's probe/park/broadcast windows
+// and perturbed free-running schedules, both wrappers (OpenBlocking, OpenTBlocking), under -race.
+
+func init() {
+	props["C18"] = propInfo{Engine: "concmon", Level: "exploration",
+		Rule:   "controlled phase: a waiter, publisher or closer is held inside one of the notifier / blocking-wrapper windows while up to two of {publish passing the offset, publish not passing, start another waiter, cancel, Close} run; perturb phase: up to 8 waiters and 4 publishers free-running with random yields/sleeps at the hook points. Oracles over the recorded events: immediate return never parks; a parked waiter returns only if a Publish/Close/cancel was invoked meanwhile; at quiescence no eligible waiter is parked (goroutine wait state); successful returns are linearizable Consume results (porcupine); cancel/closed errors. distinct_nontrivial = distinct (held actor, window, secondary sequence, waiter offset classes, wrapper) with the window reached + distinct perturb outcome classes",
+		Assume: []string{"'stays blocked' and 'is woken' are decided from goroutine wait states ([select] inside notify.(*Offset).Wait) at quiescence, not from timeouts", "the eventuality 'every Publish wakes them' is decided in its bounded form: after all publishers returned, no waiter with an offset below NextOffset is parked"}}
+}
+
+// ---------------------------------------------------------------------------------------
+// wrapper abstraction
+
+type blockLog interface {
+	Publish(msgs []ref.Msg) (int64, []ref.Msg, error)
+	ConsumeBlocking(ctx context.Context, off, max int64) (int64, []ref.Msg, error)
+	ConsumeByKeyBlocking(ctx context.Context, key []byte, off, max int64) (int64, []ref.Msg, error)
+	Close() error
+	Raw() klevdb.Log
+}
+
+type rawBlock struct{ l klevdb.BlockingLog }
+
+func (b rawBlock) Publish(msgs []ref.Msg) (int64, []ref.Msg, error) {
+	km := make([]klevdb.Message, len(msgs))
+	for i, m := range msgs {
+		km[i] = klevdb.Message{Key: m.Key, Value: m.Value}
+	}
+	nx, err := b.l.Publish(km)
+	return nx, toRefs(km), err
+}
+func (b rawBlock) ConsumeBlocking(ctx context.Context, off, max int64) (int64, []ref.Msg, error) {
+	nx, ms, err := b.l.ConsumeBlocking(ctx, off, max)
+	return nx, toRefs(ms), err
+}
+func (b rawBlock) ConsumeByKeyBlocking(ctx context.Context, key []byte, off, max int64) (int64, []ref.Msg, error) {
+	nx, ms, err := b.l.ConsumeByKeyBlocking(ctx, key, off, max)
+	return nx, toRefs(ms), err
+}
+func (b rawBlock) Close() error    { return b.l.Close() }
+func (b rawBlock) Raw() klevdb.Log { return b.l }
+
+type typedBlock struct {
+	l klevdb.TBlockingLog[string, string]
+}
+
+func fromT(ms []klevdb.TMessage[string, string]) []ref.Msg {
+	out := make([]ref.Msg, len(ms))
+	for i, m := range ms {
+		out[i] = ref.Msg{Offset: m.Offset, T: m.Time.UnixMicro(), Key: []byte(m.Key), Value: []byte(m.Value)}
+	}
+	return out
+}
+
+func (b typedBlock) Publish(msgs []ref.Msg) (int64, []ref.Msg, error) {
+	tm := make([]klevdb.TMessage[string, string], len(msgs))
+	for i, m := range msgs {
+		tm[i] = klevdb.TMessage[string, string]{Key: string(m.Key), Value: string(m.Value)}
+	}
+	nx, err := b.l.Publish(tm)
+	if err != nil {
+		return nx, nil, err
+	}
+	// the typed wrapper does not write offsets/times back: read them (sequentially consistent: own publish)
+	out := make([]ref.Msg, len(msgs))
+	for i := range msgs {
+		off := nx - int64(len(msgs)) + int64(i)
+		m, gerr := b.l.Raw().Get(off)
+		if gerr == nil {
+			out[i] = toRef(m)
+		} else {
+			out[i] = ref.Msg{Offset: off, Key: msgs[i].Key, Value: msgs[i].Value}
+		}
+	}
+	return nx, out, nil
+}
+func (b typedBlock) ConsumeBlocking(ctx context.Context, off, max int64) (int64, []ref.Msg, error) {
+	nx, ms, err := b.l.ConsumeBlocking(ctx, off, max)
+	return nx, fromT(ms), err
+}
+func (b typedBlock) ConsumeByKeyBlocking(ctx context.Context, key []byte, off, max int64) (int64, []ref.Msg, error) {
+	nx, ms, err := b.l.ConsumeByKeyBlocking(ctx, string(key), false, off, max)
+	return nx, fromT(ms), err
+}
+func (b typedBlock) Close() error    { return b.l.Close() }
+func (b typedBlock) Raw() klevdb.Log { return b.l.Raw() }
+
+func openBlock(dir string, typed bool) (blockLog, error) {
+	opts := klevdb.Options{CreateDirs: true, KeyIndex: true, Rollover: 300}
+	if typed {
+		l, err := klevdb.OpenTBlocking[string, string](dir, opts, klevdb.StringCodec, klevdb.StringCodec)
+		if err != nil {
+			return nil, err
+		}
+		return typedBlock{l}, nil
+	}
+	l, err := klevdb.OpenBlocking(dir, opts)
+	if err != nil {
+		return nil, err
+	}
+	return rawBlock{l}, nil
+}
+
+// ---------------------------------------------------------------------------------------
+// actors
+
+type bActor struct {
+	id     int
+	kind   string // waiter publisher closer
+	op     *cOp   // recorded call
+	offCls string // waiter: below at beyond relative
+	byKey  bool
+	ctx    context.Context
+	cancel context.CancelFunc
+	hc     *hookClient
+	gid    int64
+	done   chan struct{}
+	// cancel bookkeeping
+	cancelCall int64
+	cancelled  bool
+	rawErr     error
+	atNext     int64 // NextOffset known when the waiter was created (sequentially)
+}
+
+type bRun struct {
+	cfg     *RunCfg
+	rep     *Reporter
+	cov     *Cov
+	l       blockLog
+	dir     string
+	typed   bool
+	hm      *hookMode
+	actors  []*bActor
+	seq     int
+	id      string
+	closed  bool
+	perturb bool
+	preset  []*cOp
+}
+
+func (br *bRun) newActor(kind string) *bActor {
+	a := &bActor{id: len(br.actors), kind: kind, done: make(chan struct{})}
+	a.hc = &hookClient{id: a.id, points: map[string]int{}, hits: map[string]int{}, arrived: make(chan string, 1), release: make(chan struct{})}
+	br.actors = append(br.actors, a)
+	return a
+}
+
+func (br *bRun) pubMsgs(n int) []ref.Msg {
+	var out []ref.Msg
+	keys := []string{"a", "b"}
+	for i := 0; i < n; i++ {
+		br.seq++
+		out = append(out, ref.Msg{Key: []byte(keys[br.seq%2]), Value: []byte(fmt.Sprintf("%s.%d", br.id, br.seq))})
+	}
+	return out
+}
+
+// presetPublish publishes sequentially before the concurrent part and records the call.
+func (br *bRun) presetPublish(n int) (int64, error) {
+	o := &cOp{Client: 99, Kind: "publish", N: n, Pub: br.pubMsgs(n)}
+	o.Call = nowNS()
+	nx, written, err := br.l.Publish(o.Pub)
+	o.Ret = nowNS()
+	o.Next = nx
+	if err == nil {
+		o.Pub = written
+		o.OutOffs = ref.OffsetsOf(written)
+	}
+	o.Done = true
+	br.preset = append(br.preset, o)
+	return nx, err
+}
+
+// start launches the actor's call in its own goroutine (registered with the hook handler).
+func (br *bRun) start(a *bActor, fn func()) {
+	gch := make(chan int64, 1)
+	go func() {
+		g := goid()
+		if !br.perturb {
+			br.hm.mu.Lock()
+			br.hm.dyn[g] = a.hc
+			br.hm.mu.Unlock()
+		}
+		gch <- g
+		fn()
+		close(a.done)
+	}()
+	a.gid = <-gch
+}
+
+func (br *bRun) startWaiter(a *bActor, off, max int64, key []byte) {
+	a.ctx, a.cancel = context.WithCancel(context.Background())
+	a.op = &cOp{Client: a.id, Kind: "consume", Off: off, Max: max}
+	if key != nil {
+		a.op.Kind = "consumebykey"
+		a.op.Key = key
+		a.byKey = true
+	}
+	br.start(a, func() {
+		o := a.op
+		var err error
+		o.Call = nowNS()
+		if a.byKey {
+			o.Next, o.Out, err = br.l.ConsumeByKeyBlocking(a.ctx, key, off, max)
+		} else {
+			o.Next, o.Out, err = br.l.ConsumeBlocking(a.ctx, off, max)
+		}
+		o.Ret = nowNS()
+		o.OutOffs = ref.OffsetsOf(o.Out)
+		a.rawErr = err
+		if err != nil {
+			o.Err = errClass(err)
+			o.ErrText = errText(err)
+			o.Out, o.OutOffs = nil, nil
+		}
+		o.Done = true
+	})
+}
+
+func (br *bRun) startPublisher(a *bActor, n int) {
+	a.op = &cOp{Client: a.id, Kind: "publish", N: n, Pub: br.pubMsgs(n)}
+	br.start(a, func() {
+		o := a.op
+		o.Call = nowNS()
+		nx, written, err := br.l.Publish(o.Pub)
+		o.Ret = nowNS()
+		o.Next = nx
+		if err != nil {
+			o.Err = errClass(err)
+			o.ErrText = errText(err)
+		} else {
+			o.Pub = written
+			o.OutOffs = ref.OffsetsOf(written)
+		}
+		o.Done = true
+	})
+}
+
+func (br *bRun) startCloser(a *bActor) {
+	a.op = &cOp{Client: a.id, Kind: "close"}
+	br.start(a, func() {
+		o := a.op
+		o.Call = nowNS()
+		err := br.l.Close()
+		o.Ret = nowNS()
+		if err != nil {
+			o.Err = errClass(err)
+			o.ErrText = errText(err)
+		}
+		o.Done = true
+	})
+}
+
+// settle waits until the actor finished or is parked (wait state); returns "done", "parked:<state>", "running".
+func settle(a *bActor, spins int) string {
+	for spin := 0; spin < spins; spin++ {
+		select {
+		case <-a.done:
+			return "done"
+		default:
+		}
+		if spin%10 == 9 {
+			if ws, ok := waitStates()[a.gid]; ok && isBlockedState(ws[0]) {
+				return "parked:" + ws[0] + ":" + ws[1]
+			}
+		}
+		time.Sleep(50 * time.Microsecond)
+	}
+	return "running"
+}
+
+func parkedInWait(state string) bool {
+	return strings.HasPrefix(state, "parked:select") && strings.Contains(state, "notify.(*Offset).Wait")
+}
+
+// ---------------------------------------------------------------------------------------
+// judging a finished run
+
+func (br *bRun) judge(replay map[string]any, finalNext int64, closeOp *cOp) bool {
+	report := func(sig, what string) bool {
+		var hist []string
+		for _, a := range br.actors {
+			if a.op != nil {
+				hist = append(hist, fmt.Sprintf("%s[%s] %s parked=%v err=%q", a.kind, a.offCls, a.op.String(), a.hc.points["notify.wait.beforePark"] > 0, a.op.ErrText))
+			}
+		}
+		replay["actors"] = hist
+		br.rep.Report(Violation{Property: "C18", Sig: "concmon|" + sig, What: what, Replay: replay})
+		return false
+	}
+	var pubs []*cOp
+	for _, a := range br.actors {
+		if a.kind == "publisher" && a.op.Done {
+			pubs = append(pubs, a.op)
+		}
+	}
+	lowerNext := func(t int64, init int64) int64 {
+		lo := init
+		for _, p := range pubs {
+			if p.Err == "" && p.Ret < t && p.Next > lo {
+				lo = p.Next
+			}
+		}
+		return lo
+	}
+	for _, a := range br.actors {
+		if a.kind != "waiter" {
+			continue
+		}
+		o := a.op
+		if !o.Done {
+			continue // handled by the quiescence oracle
+		}
+		br.cov.Add("evaluations", 1)
+		parked := a.hc.points["notify.wait.beforePark"] > 0
+		// 1. immediate return: relative offsets and offsets below NextOffset at invocation never park
+		if !br.perturb || true {
+			if o.Off < 0 || o.Off < lowerNext(o.Call, a.atNext) {
+				if parked && !br.perturb {
+					return report("immediate:parked:"+a.offCls, fmt.Sprintf("%s was invoked with an offset below NextOffset (or relative) but reached the park point", o))
+				}
+				if parked && br.perturb && o.Off < a.atNext {
+					return report("immediate:parked:"+a.offCls, fmt.Sprintf("%s was invoked with an offset below NextOffset but reached the park point", o))
+				}
+			}
+		}
+		// 2. no spurious wake: a parked waiter returns only if a Publish/Close/cancel was invoked before it returned
+		if parked {
+			woken := false
+			for _, b := range br.actors {
+				if b.op == nil || b == a {
+					continue
+				}
+				if (b.kind == "publisher" || b.kind == "closer") && b.op.Call != 0 && b.op.Call < o.Ret {
+					if !b.op.Done || b.op.Ret > o.Call {
+						woken = true
+					}
+				}
+			}
+			if a.cancelled && a.cancelCall < o.Ret {
+				woken = true
+			}
+			if !woken {
+				return report("spurious-wake:"+a.offCls, fmt.Sprintf("%s had parked and returned although no Publish, Close or cancel had been invoked since its invocation", o))
+			}
+			br.cov.Add("c18.wakes_explained", 1)
+		}
+		// 5. errors
+		switch {
+		case o.Err == "":
+		case o.Err == "ctx-canceled":
+			if !a.cancelled {
+				return report("error:ctx-error-without-cancel", fmt.Sprintf("%s returned a context error but its context was never cancelled", o))
+			}
+		case o.Err == "ErrInvalidOffset":
+			// Consume's answer for an offset beyond NextOffset after a wake that did not pass it: judged by the linearizability check
+		case strings.Contains(o.ErrText, "offset notify already closed"):
+			// a wait at or beyond NextOffset that starts after Close fails: legal only if Close was invoked before this call returned
+			if closeOp == nil || closeOp.Call == 0 || closeOp.Call > o.Ret {
+				return report("error:closed-without-close", fmt.Sprintf("%s failed with 'notify closed' but Close had not been invoked", o))
+			}
+		default:
+			if closeOp != nil && closeOp.Call != 0 && closeOp.Call < o.Ret {
+				// reading from a log that is being closed: outside the property
+				break
+			}
+			return report("error:"+o.Err, fmt.Sprintf("%s failed: %s", o, o.ErrText))
+		}
+		// a cancelled context yields its error unless a wake raced with it
+		if a.cancelled && o.Err == "" && a.cancelCall < o.Call {
+			return report("cancel:ignored", fmt.Sprintf("%s was invoked with an already cancelled context at/after NextOffset and returned without error", o))
+		}
+	}
+	// 4. successful returns are Consume/ConsumeByKey results at some instant inside the call
+	h := &concHist{id: br.id, cfg: ref.IndexCfg{Keys: true}}
+	h.ops = append(h.ops, br.preset...)
+	for _, a := range br.actors {
+		if a.op == nil || !a.op.Done {
+			continue
+		}
+		switch a.kind {
+		case "publisher":
+			if a.op.Err == "" {
+				h.ops = append(h.ops, a.op)
+			} else if closeOp == nil || closeOp.Call == 0 || a.op.Ret < closeOp.Call {
+				return report("error:Publish:"+a.op.Err, "Publish failed: "+a.op.ErrText)
+			}
+		case "waiter":
+			if a.op.Err == "" || a.op.Err == "ErrInvalidOffset" {
+				if closeOp != nil && closeOp.Call != 0 && closeOp.Call < a.op.Ret {
+					continue // results obtained while/after closing are outside the model
+				}
+				h.ops = append(h.ops, a.op)
+			}
+		}
+	}
+	if f := h.streamMonitors(); f != nil {
+		return report(f.Sig, f.What)
+	}
+	res, why := h.linearizable(10 * time.Second)
+	br.cov.Add("porcupine."+res, 1)
+	if res == "illegal" {
+		return report("result-not-a-consume-result", "a blocking consume returned something Consume could not have returned at any instant inside the call: "+why)
+	}
+	if res == "unknown" {
+		br.rep.Inconclusive("porcupine timeout")
+	}
+	return true
+}
+
+// quiesce: after all publishers/closers returned, every waiter must have returned or be legitimately
+// parked. Returns false on violation. Legitimately parked waiters are then cancelled and must return
+// their context's error.
+func (br *bRun) quiesce(replay map[string]any, finalNext int64, closeReturned bool) bool {
+	for _, a := range br.actors {
+		if a.kind != "waiter" {
+			continue
+		}
+		st := settle(a, 20000)
+		br.cov.Add("c18.quiescence_checks", 1)
+		br.cov.Add("evaluations", 1)
+		switch {
+		case st == "done":
+		case parkedInWait(st):
+			if a.op.Off < finalNext || closeReturned {
+				why := fmt.Sprintf("its offset %d is below NextOffset %d", a.op.Off, finalNext)
+				if closeReturned {
+					why = "Close has returned"
+				}
+				replay["goroutine"] = st
+				br.rep.Report(Violation{Property: "C18", Sig: "concmon|lost-wake:" + a.offCls, What: fmt.Sprintf("after every publisher returned, waiter %s is still parked in notify.Wait although %s: the wake-up was lost", a.op, why), Replay: replay})
+				// unblock it so the goroutine does not leak
+				a.cancelCall = nowNS()
+				a.cancelled = true
+				a.cancel()
+				settle(a, 20000)
+				return false
+			}
+			br.cov.Add("c18.stayed_blocked", 1)
+			a.cancelCall = nowNS()
+			a.cancelled = true
+			a.cancel()
+			if settle(a, 20000) != "done" {
+				br.rep.Inconclusive("cancelled waiter did not return")
+				return true
+			}
+			if a.op.Err != "ctx-canceled" {
+				br.rep.Report(Violation{Property: "C18", Sig: "concmon|cancel:wrong-result", What: fmt.Sprintf("a parked waiter whose context was cancelled returned %s %q instead of the context's error", a.op, a.op.ErrText), Replay: replay})
+				return false
+			}
+			br.cov.Add("c18.cancel_returns_ctx_error", 1)
+		default:
+			br.rep.Inconclusive("waiter neither returned nor parked: " + clipStr(st, 80))
+		}
+	}
+	return true
+}
+
+// ---------------------------------------------------------------------------------------
+// controlled scenarios
+
+type bScenario struct {
+	held     string // waiter publisher closer
+	window   string
+	offCls   string // held waiter's offset class; for publisher/closer: class of the pre-parked waiter
+	byKey    bool
+	secs     []string
+	typed    bool
+	prePark2 bool // a second pre-parked waiter beyond
+}
+
+func (s bScenario) String() string {
+	return fmt.Sprintf("hold %s[%s bykey=%v]@%s + %v typed=%v second-waiter=%v", s.held, s.offCls, s.byKey, s.window, s.secs, s.typed, s.prePark2)
+}
+
+var bSecondaries = []string{"publish-pass", "publish-empty", "publish-2", "waiter-at", "waiter-beyond", "waiter-below", "cancel", "close"}
+
+func enumerateBScenarios(tier string, seed int64, scale float64) []bScenario {
+	var out []bScenario
+	r := NewRand(seed, 1818)
+	type hw struct{ held, window string }
+	var hws []hw
+	for _, w := range []string{"notify.wait.afterFast", "notify.wait.holdingToken", "notify.wait.beforePark", "blocking.consume.afterWait"} {
+		hws = append(hws, hw{"waiter", w})
+	}
+	for _, w := range []string{"blocking.publish.beforeNotify", "notify.set.holdingToken", "notify.set.afterStore", "notify.set.afterBroadcast"} {
+		hws = append(hws, hw{"publisher", w})
+	}
+	hws = append(hws, hw{"closer", "notify.close.afterBroadcast"})
+	k := 0
+	for _, x := range hws {
+		classes := []string{"at", "beyond"}
+		for _, oc := range classes {
+			add := func(secs []string) {
+				k++
+				out = append(out, bScenario{held: x.held, window: x.window, offCls: oc, byKey: k%3 == 0, secs: secs, typed: k%2 == 0, prePark2: k%4 < 2})
+			}
+			add(nil)
+			for _, s := range bSecondaries {
+				add([]string{s})
+			}
+			frac := 0.5
+			if tier == "thorough" {
+				frac = 1
+			}
+			frac *= scale
+			for _, a := range bSecondaries {
+				for _, b := range bSecondaries {
+					if a == "close" {
+						continue // nothing is specified after Close except new waits, covered by [close, waiter-*]
+					}
+					if r.Chance(frac) {
+						add([]string{a, b})
+					}
+				}
+			}
+			for _, b := range []string{"waiter-at", "waiter-beyond", "waiter-below"} {
+				add([]string{"close", b})
+			}
+		}
+	}
+	return out
+}
+
+func runBScenario(cfg *RunCfg, rep *Reporter, cov *Cov, idx int, sc bScenario) {
+	br := &bRun{cfg: cfg, rep: rep, cov: cov, typed: sc.typed, id: fmt.Sprintf("b%d", idx)}
+	br.dir = filepath.Join(cfg.Scratch, br.id)
+	defer os.RemoveAll(br.dir)
+	l, err := openBlock(br.dir, sc.typed)
+	if err != nil {
+		rep.Inconclusive("open blocking failed")
+		return
+	}
+	br.l = l
+	br.hm = &hookMode{dyn: map[int64]*hookClient{}}
+	installHook(br.hm)
+	defer installHook(nil)
+	replay := map[string]any{"phase": "controlled", "scenario": sc.String(), "index": idx, "seed": cfg.Seed}
+	// preset: two messages, NextOffset = 2
+	nx, err := br.presetPublish(2)
+	if err != nil || nx != 2 {
+		rep.Inconclusive("preset publish failed")
+		l.Close()
+		return
+	}
+	next := nx
+	offOf := func(cls string) int64 {
+		switch cls {
+		case "below":
+			return next - 1
+		case "beyond":
+			return next + 1
+		case "relative":
+			return klevdb.OffsetOldest
+		}
+		return next
+	}
+	var closeOp *cOp
+	mkWaiter := func(cls string, byKey bool) *bActor {
+		a := br.newActor("waiter")
+		a.offCls = cls
+		a.atNext = next
+		var key []byte
+		if byKey {
+			key = []byte("a")
+		}
+		br.startWaiter(a, offOf(cls), 4, key)
+		return a
+	}
+	// pre-parked waiters when the held actor is a publisher or closer
+	if sc.held != "waiter" {
+		w := mkWaiter(sc.offCls, sc.byKey)
+		if st := settle(w, 20000); !parkedInWait(st) {
+			rep.Inconclusive("pre-parked waiter did not park: " + clipStr(st, 60))
+		}
+		if sc.prePark2 {
+			w2 := mkWaiter("beyond", false)
+			settle(w2, 20000)
+		}
+	}
+	// the held actor
+	var held *bActor
+	switch sc.held {
+	case "waiter":
+		held = br.newActor("waiter")
+		held.offCls = sc.offCls
+		held.atNext = next
+		held.hc.armPoint, held.hc.armNth = sc.window, 1
+		var key []byte
+		if sc.byKey {
+			key = []byte("a")
+		}
+		br.startWaiter(held, offOf(sc.offCls), 4, key)
+	case "publisher":
+		held = br.newActor("publisher")
+		held.hc.armPoint, held.hc.armNth = sc.window, 1
+		br.startPublisher(held, 1)
+	case "closer":
+		held = br.newActor("closer")
+		held.hc.armPoint, held.hc.armNth = sc.window, 1
+		br.startCloser(held)
+		closeOp = held.op
+	}
+	arrived := false
+	// wait until the held actor arrived at its window, finished, or parked (a waiter held at
+	// blocking.consume.afterWait only gets there after something woke it)
+	waitHeld := func(spins int) {
+		for spin := 0; spin < spins && !arrived; spin++ {
+			select {
+			case <-held.hc.arrived:
+				arrived = true
+				return
+			case <-held.done:
+				return
+			default:
+			}
+			if spin%10 == 9 {
+				if ws, ok := waitStates()[held.gid]; ok && isBlockedState(ws[0]) && !strings.Contains(ws[1], "vhook") {
+					// parked somewhere else than in the hook handler
+					if strings.Contains(ws[1], "notify.(*Offset).Wait") || strings.Contains(ws[1], "notify.(*Offset).Set") || strings.Contains(ws[1], "notify.(*Offset).Close") {
+						return
+					}
+				}
+			}
+			time.Sleep(50 * time.Microsecond)
+		}
+	}
+	waitHeld(40000)
+	winKey := sc.held + "@" + sc.window
+	// secondaries
+	inside := 0
+	for _, s := range sc.secs {
+		var a *bActor
+		switch s {
+		case "publish-pass":
+			a = br.newActor("publisher")
+			br.startPublisher(a, 1)
+		case "publish-2":
+			a = br.newActor("publisher")
+			br.startPublisher(a, 2)
+		case "publish-empty":
+			a = br.newActor("publisher")
+			br.startPublisher(a, 0)
+		case "waiter-at":
+			a = mkWaiter("at", false)
+		case "waiter-beyond":
+			a = mkWaiter("beyond", idx%2 == 0)
+		case "waiter-below":
+			a = mkWaiter("below", false)
+		case "cancel":
+			// cancel the first waiter that has not returned
+			for _, w := range br.actors {
+				if w.kind == "waiter" && !w.cancelled {
+					select {
+					case <-w.done:
+						continue
+					default:
+					}
+					w.cancelCall = nowNS()
+					w.cancelled = true
+					w.cancel()
+					break
+				}
+			}
+			continue
+		case "close":
+			if closeOp != nil {
+				continue
+			}
+			a = br.newActor("closer")
+			br.startCloser(a)
+			closeOp = a.op
+		}
+		st := settle(a, 4000)
+		if st == "done" && arrived {
+			inside++
+		}
+	}
+	waitHeld(2000) // a late arrival (woken by a secondary)
+	if arrived {
+		cov.Add("windows_reached."+sc.window, 1)
+		cov.Distinct("windows", winKey)
+	} else {
+		cov.Add("windows_unreached", 1)
+		cov.Distinct("windows_unreached_set", winKey+"["+sc.offCls+"]")
+	}
+	close(held.hc.release) // an arrival after this point passes straight through
+	// join publishers and closers
+	for _, a := range br.actors {
+		if a.kind == "waiter" {
+			continue
+		}
+		if st := settle(a, 40000); st != "done" {
+			replay["goroutine"] = st
+			rep.Report(Violation{Property: "C18", Sig: "concmon|stuck:" + a.kind, What: fmt.Sprintf("%s never returned: %s", a.kind, st), Replay: replay})
+			return
+		}
+	}
+	finalNext := next
+	for _, a := range br.actors {
+		if a.kind == "publisher" && a.op.Err == "" && a.op.Next > finalNext {
+			finalNext = a.op.Next
+		}
+	}
+	closeReturned := closeOp != nil && closeOp.Done
+	ok := br.quiesce(replay, finalNext, closeReturned)
+	installHook(nil)
+	if ok {
+		ok = br.judge(replay, finalNext, closeOp)
+	}
+	if !closeReturned {
+		l.Close()
+	}
+	cov.Add("ctrl.scenarios", 1)
+	if arrived {
+		cov.Distinct("c18", fmt.Sprintf("%s|%s|%v|%s|typed=%v|bykey=%v", sc.held, sc.window, sc.secs, sc.offCls, sc.typed, sc.byKey))
+	}
+	if idx%97 == 0 {
+		var hs []string
+		for _, a := range br.actors {
+			if a.op != nil {
+				hs = append(hs, fmt.Sprintf("%s[%s] %s parked=%v", a.kind, a.offCls, a.op.String(), a.hc.points["notify.wait.beforePark"] > 0))
+			}
+		}
+		cov.Sample("c18-"+sc.window, map[string]any{"phase": "controlled", "scenario": sc.String(), "window_reached": arrived, "secondaries_completed_inside": inside, "actors": hs})
+	}
+}
+
+// ---------------------------------------------------------------------------------------
+// perturb phase
+
+func runBPerturb(cfg *RunCfg, rep *Reporter, cov *Cov, idx int) {
+	r := NewRand(cfg.Seed, 1819, int64(idx))
+	br := &bRun{cfg: cfg, rep: rep, cov: cov, typed: idx%2 == 1, id: fmt.Sprintf("bp%d", idx), perturb: true}
+	br.dir = filepath.Join(cfg.Scratch, br.id)
+	defer os.RemoveAll(br.dir)
+	l, err := openBlock(br.dir, br.typed)
+	if err != nil {
+		return
+	}
+	br.l = l
+	next, _ := br.presetPublish(1 + r.Intn(3))
+	nW, nP := 1+r.Intn(8), 1+r.Intn(4)
+	withClose := r.Chance(0.3)
+	hm := &hookMode{perturb: true, clients: map[int64]*hookClient{}}
+	replay := map[string]any{"phase": "perturb", "index": idx, "seed": cfg.Seed, "waiters": nW, "publishers": nP, "close": withClose, "typed": br.typed}
+	// all actors are created blocked on a start channel so that the goroutine->client map is complete
+	start := make(chan struct{})
+	type plan struct {
+		a   *bActor
+		run func()
+	}
+	var plans []plan
+	var closeOp *cOp
+	for i := 0; i < nW; i++ {
+		a := br.newActor("waiter")
+		a.hc.rng = NewRand(cfg.Seed, 1820, int64(idx), int64(i))
+		a.atNext = next
+		cls := pick(r, []string{"at", "at", "beyond", "beyond2", "below", "relative"})
+		a.offCls = cls
+		off := next
+		switch cls {
+		case "beyond":
+			off = next + 1
+		case "beyond2":
+			off = next + int64(2+r.Intn(3))
+		case "below":
+			off = next - 1
+		case "relative":
+			off = klevdb.OffsetNewest - int64(r.Intn(2))
+		}
+		var key []byte
+		if r.Chance(0.3) {
+			key = []byte("a")
+		}
+		a.ctx, a.cancel = context.WithCancel(context.Background())
+		a.op = &cOp{Client: a.id, Kind: "consume", Off: off, Max: int64(1 + r.Intn(4)), Key: key}
+		if key != nil {
+			a.op.Kind = "consumebykey"
+			a.byKey = true
+		}
+		delay := time.Duration(r.Intn(300)) * time.Microsecond
+		cancelAfter := time.Duration(0)
+		if r.Chance(0.2) {
+			cancelAfter = time.Duration(50+r.Intn(2000)) * time.Microsecond
+		}
+		plans = append(plans, plan{a, func() {
+			time.Sleep(delay)
+			o := a.op
+			if cancelAfter > 0 {
+				go func() {
+					time.Sleep(cancelAfter)
+					a.cancelCall = nowNS()
+					a.cancelled = true
+					a.cancel()
+				}()
+			}
+			var err error
+			o.Call = nowNS()
+			if a.byKey {
+				o.Next, o.Out, err = l.ConsumeByKeyBlocking(a.ctx, key, o.Off, o.Max)
+			} else {
+				o.Next, o.Out, err = l.ConsumeBlocking(a.ctx, o.Off, o.Max)
+			}
+			o.Ret = nowNS()
+			o.OutOffs = ref.OffsetsOf(o.Out)
+			a.rawErr = err
+			if err != nil {
+				o.Err, o.ErrText = errClass(err), errText(err)
+				o.Out, o.OutOffs = nil, nil
+			}
+			o.Done = true
+		}})
+	}
+	// publishers: each a short sequence of publishes, recorded as separate actors would be heavy: one actor per publish
+	for i := 0; i < nP; i++ {
+		np := 1 + r.Intn(3)
+		var chain []*bActor
+		for j := 0; j < np; j++ {
+			a := br.newActor("publisher")
+			n := 1 + r.Intn(2)
+			if r.Chance(0.2) {
+				n = 0
+			}
+			a.op = &cOp{Client: a.id, Kind: "publish", N: n, Pub: br.pubMsgs(n)}
+			chain = append(chain, a)
+		}
+		hc := &hookClient{id: 100 + i, rng: NewRand(cfg.Seed, 1821, int64(idx), int64(i)), points: map[string]int{}, hits: map[string]int{}}
+		for _, a := range chain {
+			a.hc = hc
+		}
+		delay := time.Duration(r.Intn(500)) * time.Microsecond
+		first := chain[0]
+		plans = append(plans, plan{first, func() {
+			time.Sleep(delay)
+			for _, a := range chain {
+				o := a.op
+				o.Call = nowNS()
+				nx, written, err := l.Publish(o.Pub)
+				o.Ret = nowNS()
+				o.Next = nx
+				if err != nil {
+					o.Err, o.ErrText = errClass(err), errText(err)
+				} else {
+					o.Pub = written
+					o.OutOffs = ref.OffsetsOf(written)
+				}
+				o.Done = true
+				if a != first {
+					close(a.done)
+				}
+			}
+		}})
+	}
+	if withClose {
+		a := br.newActor("closer")
+		a.hc.rng = NewRand(cfg.Seed, 1822, int64(idx))
+		a.op = &cOp{Client: a.id, Kind: "close"}
+		closeOp = a.op
+		delay := time.Duration(200+r.Intn(1500)) * time.Microsecond
+		plans = append(plans, plan{a, func() {
+			time.Sleep(delay)
+			o := a.op
+			o.Call = nowNS()
+			err := l.Close()
+			o.Ret = nowNS()
+			if err != nil {
+				o.Err, o.ErrText = errClass(err), errText(err)
+			}
+			o.Done = true
+		}})
+	}
+	ready := make(chan struct{}, len(plans))
+	for _, p := range plans {
+		p := p
+		go func() {
+			p.a.gid = goid()
+			ready <- struct{}{}
+			<-start
+			p.run()
+			close(p.a.done)
+		}()
+	}
+	for range plans {
+		<-ready
+	}
+	for _, p := range plans {
+		hm.clients[p.a.gid] = p.a.hc
+	}
+	installHook(hm)
+	close(start)
+	// join publishers and closer
+	for _, a := range br.actors {
+		if a.kind == "waiter" {
+			continue
+		}
+		select {
+		case <-a.done:
+		case <-time.After(30 * time.Second):
+			rep.Inconclusive("perturb publisher/closer did not finish")
+			installHook(nil)
+			return
+		}
+	}
+	finalNext := next
+	for _, a := range br.actors {
+		if a.kind == "publisher" && a.op.Done && a.op.Err == "" && a.op.Next > finalNext {
+			finalNext = a.op.Next
+		}
+	}
+	closeReturned := closeOp != nil && closeOp.Done
+	ok := br.quiesce(replay, finalNext, closeReturned)
+	installHook(nil)
+	if ok {
+		br.judge(replay, finalNext, closeOp)
+	}
+	if !closeReturned {
+		l.Close()
+	}
+	cov.Add("perturb.histories", 1)
+	outc := map[string]int{}
+	for _, a := range br.actors {
+		if a.kind == "waiter" && a.op.Done {
+			parked := a.hc.points["notify.wait.beforePark"] > 0
+			cls := fmt.Sprintf("%s|parked=%v|err=%s|n=%d", a.offCls, parked, a.op.Err, minInt(len(a.op.Out), 2))
+			outc[cls]++
+			cov.Distinct("c18", "perturb-outcome:"+cls)
+		}
+		for p, n := range a.hc.points {
+			cov.Add("points."+p, int64(n))
+		}
+	}
+	if idx%60 == 0 {
+		cov.Sample("c18-perturb", map[string]any{"phase": "perturb", "history": idx, "waiters": nW, "publishers": nP, "close": withClose, "typed": br.typed, "waiter_outcomes": outc})
+	}
+}
+
+// ---------------------------------------------------------------------------------------
+// engine
+
+func runC18(cfg *RunCfg, rep *Reporter, cov *Cov, ev *Evidence) {
+	scs := enumerateBScenarios(cfg.Tier, cfg.Seed, cfg.Scale)
+	for i, sc := range scs {
+		runBScenario(cfg, rep, cov, i, sc)
+	}
+	nh := 300
+	if cfg.Tier == "thorough" {
+		nh = 15000
+	}
+	nh = int(float64(nh) * cfg.Scale)
+	for i := 0; i < nh; i++ {
+		runBPerturb(cfg, rep, cov, i)
+	}
+	finishRace(cfg, rep, cov, ev, "C18")
+	ev.Coverage["evaluations"] = cov.Get("evaluations")
+	ev.Coverage["distinct_nontrivial"] = int64(cov.SetSize("c18"))
+	ev.Coverage["distinct_examples"] = cov.SetMembers("c18", 14)
+	ev.Coverage["controlled_scenarios"] = cov.Get("ctrl.scenarios")
+	ev.Coverage["windows_reached"] = cov.Counts("windows_reached.")
+	ev.Coverage["held_actor_windows_never_reached"] = cov.SetMembers("windows_unreached_set", 0)
+	ev.Coverage["perturb_histories"] = cov.Get("perturb.histories")
+	ev.Coverage["quiescence_checks"] = cov.Get("c18.quiescence_checks")
+	ev.Coverage["waiters_that_stayed_blocked_until_cancelled"] = cov.Get("c18.stayed_blocked")
+	ev.Coverage["cancel_returned_ctx_error"] = cov.Get("c18.cancel_returns_ctx_error")
+	ev.Coverage["parked_waiter_wakes_explained"] = cov.Get("c18.wakes_explained")
+	ev.Coverage["hook_points_hit_in_perturb"] = cov.Counts("points.")
+	ev.Coverage["porcupine"] = cov.Counts("porcupine.")
+	ev.Coverage["samples"] = cov.Samples()
+}
